@@ -24,7 +24,7 @@ import ast
 import copy
 
 from ..consts import Folder, Ref, Unknown
-from ..heval import (Evaluator, Field, Opq, Obj, SList, Emit, PathRaise, explore_paths, fields_of, show, Frame)
+from ..heval import (Evaluator, Field, Opq, Obj, SList, Emit, PathRaise, explore_paths, fields_of, show, Frame, FuncRef, Closure, ClsRef)
 from ..model import DEX, AnalysisError, Module, Repo, norm
 from ..spec import dalvik, java_ops
 
@@ -47,6 +47,23 @@ class Defined:
         init = cls.lookup("__init__")
         if init is not None:
             self.must, self.may = self._func(init, set())
+        # classes whose attributes cannot be read off the assignments
+        self.dynamic = None
+        for c in cls.mro():
+            if c.node.decorator_list:
+                self.dynamic = "class %s is decorated" % c.name
+            for b in c.node.bases:
+                bn = b.id if isinstance(b, ast.Name) else (b.attr if isinstance(b, ast.Attribute) else None)
+                if bn not in (None, "object") and c.module.resolve_class(bn) is None:
+                    self.dynamic = "base class %s of %s is not a repository class" % (bn, c.name)
+            if "__getattr__" in c.methods or "__getattribute__" in c.methods or "__slots__" in c.attrs:
+                self.dynamic = "class %s customises attribute access" % c.name
+            for n in ast.walk(c.node):
+                if isinstance(n, ast.Call) and isinstance(n.func, ast.Name) and n.func.id in ("setattr", "vars") and n.args \
+                        and isinstance(n.args[0], ast.Name) and n.args[0].id in ("self", "cls"):
+                    self.dynamic = "class %s sets attributes dynamically (%s)" % (c.name, n.func.id)
+                if isinstance(n, ast.Attribute) and n.attr == "__dict__":
+                    self.dynamic = "class %s manipulates __dict__" % c.name
 
     def _func(self, func, seen):
         if func.qualname in seen:
@@ -89,9 +106,23 @@ class Defined:
             if isinstance(s, ast.Assign):
                 for t in s.targets:
                     must |= self._targets(t, self_name, func)
+                for n in ast.walk(s.value):
+                    if (isinstance(n, ast.Call) and isinstance(n.func, ast.Attribute) and isinstance(n.func.value, ast.Name)
+                            and n.func.value.id == self_name and self.cls.lookup(n.func.attr) is not None):
+                        m2, y2 = self._func(self.cls.lookup(n.func.attr), seen)
+                        must |= m2
+                        may |= y2
             elif isinstance(s, (ast.AnnAssign, ast.AugAssign)):
                 if not (isinstance(s, ast.AnnAssign) and s.value is None):
                     must |= self._targets(s.target, self_name, func)
+            elif isinstance(s, ast.Expr) and isinstance(s.value, ast.Call) and isinstance(s.value.func, ast.Attribute) \
+                    and isinstance(s.value.func.value, ast.Name) and s.value.func.value.id == self_name \
+                    and self.cls.lookup(s.value.func.attr) is not None:
+                # self.helper(...): the attributes the helper defines on every path
+                callee = self.cls.lookup(s.value.func.attr)
+                m2, y2 = self._func(callee, seen)
+                must |= m2
+                may |= y2
             elif isinstance(s, ast.Expr) and isinstance(s.value, ast.Call):
                 c = s.value
                 f = c.func
@@ -128,6 +159,11 @@ class Defined:
                     return must, may | must, True
             else:
                 may |= self._all_targets(s, self_name, func)
+                for n in ast.walk(s):
+                    if (isinstance(n, ast.Call) and isinstance(n.func, ast.Attribute) and isinstance(n.func.value, ast.Name)
+                            and n.func.value.id == self_name and self.cls.lookup(n.func.attr) is not None):
+                        m2, y2 = self._func(self.cls.lookup(n.func.attr), seen)
+                        may |= m2 | y2
         return must, may | must, False
 
     def status(self, attr):
@@ -136,7 +172,7 @@ class Defined:
             return "yes"
         if self.cls.lookup(attr) is not None or self.cls.lookup_attr(attr) is not None:
             return "yes"
-        if attr in self.may:
+        if attr in self.may or self.dynamic:
             return "maybe"
         return "no"
 
@@ -157,9 +193,10 @@ class HandlerEval:
         self.instr = repo.mod(INSTR)
         self.writer_cls = repo.mod(WRITER).cls("Writer")
         self.const_cls = self.instr.cls("Constant")
+        self.shared = {}
 
     def make(self, choices):
-        return Evaluator(self.repo, self.folder, {OPC}, choices,
+        return Evaluator(self.repo, self.folder, {OPC}, choices, shared=self.shared,
                          hooks={"construct": self._on_construct, "visitor": self._on_visitor, "obj_method": self._on_obj_method})
 
     # ---- hooks ---------------------------------------------------------------------------
@@ -215,17 +252,18 @@ class HandlerEval:
         return ev.call_func(m, args, kwargs, self_obj=obj, cls_ctx=m.cls)
 
     # ---- evaluation ----------------------------------------------------------------------------
-    def paths(self, handler, scenario=None):
+    def paths(self, hv, scenario=None):
         """every path of handler + printing.  -> list of (ev, result, signature | None) ; result may be PathRaise.
         scenario = (field name, concrete int, type letter): the register operand `field` of the value expression has been
         replaced by that constant (what constant propagation does) before printing."""
+        handler = hv.func
         params = handler.params()
         if not params:
             raise AnalysisError("handler %s takes no instruction parameter" % handler.qualname)
 
         def run(ev):
             args = [ev.INS] + [Opq("param", p) for p in params[1:]]
-            r = ev.call_func(handler, args)
+            r = ev.apply(hv, args, {}, handler.node, Frame(handler.module, handler, {}))
             ev.phase = "visit"
             if scenario is not None:
                 self.propagate(ev, r, scenario)
@@ -336,6 +374,20 @@ class HandlerEval:
         def need(n):
             if len(a) < n:
                 raise AnalysisError("visitor.%s called with %d arguments, expected >= %d" % (m, len(a), n))
+
+        # statement-level Writer methods are summarised by their arguments; a consistent reordering of the method's parameters
+        # and of its callers keeps the parameter names, so bind by name when the known names are there, else by position
+        byname = dict(zip(params, em.args))
+        byname.update({k: v for k, v in em.kwargs.items() if k in params})
+        roles = {"visit_assign": ("lhs", "rhs"), "visit_move": ("lhs", "rhs"), "visit_move_result": ("lhs", "rhs"),
+                 "visit_astore": ("array", "index", "rhs"), "visit_aload": ("array", "index"),
+                 "visit_put_instance": ("lhs", "name", "rhs"), "visit_put_static": ("cls", "name", "rhs"),
+                 "visit_get_instance": ("arg", "name"), "visit_condz_expression": ("op", "arg")}.get(m)
+        if roles is not None:
+            if all(r in byname for r in roles):
+                a = [byname[r] for r in roles]
+            elif em.kwargs:
+                raise AnalysisError("visitor.%s called with keyword arguments that Writer.%s does not name as expected" % (m, m))
 
         if m in ("visit_binary_expression", "visit_cond_expression"):
             texts, ops = self._split_tokens(m, em.tokens, 2)
@@ -543,16 +595,17 @@ def core(repo, sink, only_ops=None):
     dex = repo.mod(DEX)
     repo.mod(INSTR)
     repo.mod(WRITER)
-    iset = folder.global_(opc, "INSTRUCTION_SET")
-    if isinstance(iset, Unknown) or not isinstance(iset, list):
-        raise AnalysisError("INSTRUCTION_SET does not fold to a constant list (%r)" % (iset,))
-    for i, h in enumerate(iset):
-        if i in dalvik.OPCODES and i <= 0xE2 and not (isinstance(h, Ref) and h.kind == "func"):
-            raise AnalysisError("INSTRUCTION_SET[0x%02x] is not a function reference: %r" % (i, h))
-    table = folder.global_(dex, "DALVIK_OPCODES_FORMAT")
-    if isinstance(table, Unknown) or not isinstance(table, dict):
-        raise AnalysisError("DALVIK_OPCODES_FORMAT does not fold to a constant dict")
     he = HandlerEval(repo, folder)
+    iset_v = he.make([]).global_name("INSTRUCTION_SET", opc)
+    if not (isinstance(iset_v, SList) and iset_v.exact):
+        raise AnalysisError("INSTRUCTION_SET does not evaluate to a list of handlers (%s)" % show(iset_v)[:80])
+    iset = list(iset_v.items)
+    for i, h in enumerate(iset):
+        if i in dalvik.OPCODES and i <= 0xE2 and not isinstance(h, (FuncRef, Closure)):
+            raise AnalysisError("INSTRUCTION_SET[0x%02x] is not a function: %s" % (i, show(h)[:80]))
+    table = he.make([]).global_name("DALVIK_OPCODES_FORMAT", dex)
+    if not isinstance(table, dict):
+        raise AnalysisError("DALVIK_OPCODES_FORMAT does not evaluate to a constant dict (%s)" % show(table)[:80])
     tp = TablePseudo(opc, "INSTRUCTION_SET")
     table_node = opc.assigns.get("INSTRUCTION_SET")
     sink.count("slots", len(iset) if only_ops is None else 0)
@@ -578,11 +631,12 @@ def core(repo, sink, only_ops=None):
                        "INSTRUCTION_SET has %d entries: opcode 0x%02x (%s) has no handler; build_node_from_block indexes the list "
                        "by opcode" % (len(iset), op, name), node=table_node)
             continue
-        handler = iset[op].obj
+        hv = iset[op]
+        handler = hv.func
         sink.analysed(handler)
         sink.count("handlers")
         # ---- evaluate every path -----------------------------------------------------
-        paths3 = he.paths(handler)
+        paths3 = he.paths(hv)
         paths = [(ev, r) for ev, r, sg in paths3]
         sink.count("paths", len(paths))
         ok_paths = [(ev, r, sg) for ev, r, sg in paths3 if not isinstance(r, PathRaise)]
@@ -602,9 +656,10 @@ def core(repo, sink, only_ops=None):
                            detail="dispatcher passes %d arguments" % want)
         # ---- attribute reads vs format class --------------------------------------------
         row = table.get(op)
-        if not (isinstance(row, (list, tuple)) and row and isinstance(row[0], Ref) and row[0].kind == "class"):
+        row = row.items if isinstance(row, SList) else row
+        if not (isinstance(row, (list, tuple)) and row and isinstance(row[0], ClsRef)):
             raise AnalysisError("DALVIK_OPCODES_FORMAT[0x%02x] does not start with a class" % op)
-        fcls = row[0].obj
+        fcls = row[0].cls
         if fcls.name != "Instruction" + fmt:
             # C01 reports the table itself; here the handler is judged against the class that will be instantiated
             pass
@@ -619,7 +674,8 @@ def core(repo, sink, only_ops=None):
                 seen_attr.add(attr)
                 st = d.status(attr)
                 if st == "maybe":
-                    raise AnalysisError("cannot decide whether %s defines attribute %s on every path of __init__" % (fcls.name, attr))
+                    raise AnalysisError("cannot decide whether %s defines attribute %s on every path of __init__%s"
+                                        % (fcls.name, attr, (" (%s)" % d.dynamic) if d.dynamic else ""))
                 sink.count("field_reads")
                 sink.check("field-defined", "%s reads ins.%s" % (inst, attr), st == "yes", fn or handler,
                            "ins.%s @0x%02x %s (%s)" % (attr, op, name, fcls.name),
@@ -693,12 +749,15 @@ def core(repo, sink, only_ops=None):
                 if vo is None or "type" not in vo.state:
                     raise AnalysisError("cannot find the type letter of the value built by %s" % handler.qualname)
                 gt = vo.state["type"]
+                if not (isinstance(gt, str) or gt is None):
+                    raise AnalysisError("the type letter of the value built by %s is not a constant: %s" % (handler.qualname, show(gt)))
                 sink.check("type-letter", inst, gt == et, handler, "0x%02x %s: type %s" % (op, name, show(gt)),
                            "opcode 0x%02x (%s) computes a value of Dalvik type %r; %s tags the expression with %s"
                            % (op, name, et, handler.qualname, show(gt)), node=handler.node,
                            detail="type letter %s" % show(gt))
         # ---- the same expression after constant propagation replaced a register operand -------------
-        scenario_checks(he, sink, op, name, handler, exp, java_ops.TYPE.get(op), ok_paths)
+        if exp is not None and all(same_sig(x[0], exp) for x in sigs):
+            scenario_checks(he, sink, op, name, hv, exp, java_ops.TYPE.get(op), ok_paths)
     # a shared builder / IR class / Writer method through which no translation comes out literally right and at
     # least two come out wrong is itself (or something all its users share is) the broken construct
     flagged = {k: u for k, u in users.items() if len(u[2]) >= 2 and u[3] == 0}
@@ -829,7 +888,8 @@ def _abstract_c(sig, c):
     return sig
 
 
-def scenario_checks(he, sink, op, name, handler, exp, letter, base_paths):
+def scenario_checks(he, sink, op, name, hv, exp, letter, base_paths):
+    handler = hv.func
     if exp is None:
         return
     val = exp[2] if exp[0] == "assign" else exp
@@ -852,7 +912,7 @@ def scenario_checks(he, sink, op, name, handler, exp, letter, base_paths):
     for fld in sorted({val[2][1], val[3][1]}):
         for c in representative_values(letter, code_ints):
             exp_val = (val[0], val[1], _subst(val[2], fld, c), _subst(val[3], fld, c))
-            for ev, r, sg in he.paths(handler, (fld, c, letter)):
+            for ev, r, sg in he.paths(hv, (fld, c, letter)):
                 if isinstance(r, PathRaise):
                     continue
                 got = canon(sg)
@@ -865,10 +925,11 @@ def scenario_checks(he, sink, op, name, handler, exp, letter, base_paths):
                                         % (name, fld, c, render(exp_val), render(got_val), why))
                 sink.count("scenarios")
                 blame = handler
-                for fn in ev.trace:
-                    if fn not in ev.build_trace and any(isinstance(n, (ast.If, ast.IfExp)) for n in ast.walk(fn.node)):
-                        blame = fn
-                        break
+                if verdict != "ok":
+                    for fn in ev.trace:
+                        if fn not in ev.build_trace and any(isinstance(n, (ast.If, ast.IfExp)) for n in ast.walk(fn.node)):
+                            blame = fn
+                            break
                 sink.check("propagated-constant", "slot 0x%02x %s, v%s = %d" % (op, name, fld, c), verdict == "ok", blame,
                            "%s printed as %s" % (render(_abstract_c(exp_val, c)), render(_abstract_c(got_val, c))),
                            "opcode 0x%02x (%s) whose operand v%s has been replaced by the constant %d (constant propagation): `%s` is "
@@ -879,7 +940,7 @@ def scenario_checks(he, sink, op, name, handler, exp, letter, base_paths):
 def _wild(got, exp):
     """`got` with every operand the evaluator could not express replaced by what the specification expects there"""
     if isinstance(got, tuple) and got:
-        if got[0] == "?" or (got[0] in ("value", "lit", "reg") and len(got) == 2 and isinstance(got[1], tuple) and got[1] and got[1][0] == "?"):
+        if got[0] in ("?", "other") or (got[0] in ("value", "lit", "reg") and len(got) == 2 and isinstance(got[1], tuple) and got[1] and got[1][0] == "?"):
             return exp
         if isinstance(exp, tuple) and len(exp) == len(got):
             return tuple(_wild(g, e) for g, e in zip(got, exp))
@@ -888,7 +949,7 @@ def _wild(got, exp):
 
 def _has_unknown(sig):
     if isinstance(sig, tuple):
-        if sig and sig[0] == "?":
+        if sig and sig[0] in ("?", "other"):
             return True
         return any(_has_unknown(x) for x in sig)
     return False
@@ -1197,7 +1258,48 @@ def mutants():
                 return True
         return False
     out.append(("dispatcher passes move-result (0x0a) two arguments", BBLOCKS, m_dispatch))
+    out.append(("Writer.visit_cond_expression moves a constant to the right with a wrong mirror of '>='", WRITER, _swap_conds(">=", "<")))
+    out.append(("BinaryExpression.visit folds the sign of every negative constant into the operator", INSTR, _fold_sign("< 0")))
     return out
+
+
+def _swap_conds(key, value):
+    def t(tree):
+        f = _method(tree, "Writer", "visit_cond_expression")
+        if f is None or len(f.args.args) != 4:
+            return False
+        op, a1, a2 = [x.arg for x in f.args.args[1:]]
+        table = {"==": "==", "!=": "!=", "<": ">", "<=": ">=", ">=": "<=", ">": "<"}
+        table[key] = value
+        tree.body.insert(max(i for i, n in enumerate(tree.body) if isinstance(n, (ast.Import, ast.ImportFrom))) + 1,
+                         ast.parse("AGSTATIC_SWAPPED = %r" % table).body[0])
+        guard = ast.parse(
+            "if isinstance({a1}, Constant) and not isinstance({a2}, Constant) and {op} in AGSTATIC_SWAPPED:\n"
+            "    {a1}, {a2} = {a2}, {a1}\n"
+            "    {op} = AGSTATIC_SWAPPED[{op}]\n".format(a1=a1, a2=a2, op=op)).body[0]
+        f.body.insert(0, guard)
+        return True
+    return t
+
+
+def _fold_sign(cond):
+    def t(tree):
+        f = _method(tree, "BinaryExpression", "visit")
+        if f is None:
+            return False
+        new = ast.parse(
+            "def visit(self, visitor):\n"
+            "    v_m = self.var_map\n"
+            "    op, arg2 = self.op, v_m[self.arg2]\n"
+            "    if (op in ('+', '-') and self.type in ('I', 'J') and isinstance(arg2, Constant)\n"
+            "            and arg2.get_type() in ('I', 'J') and %s):\n"
+            "        op = '-' if op == '+' else '+'\n"
+            "        arg2 = Constant(-arg2.get_int_value(), arg2.get_type())\n"
+            "    return visitor.visit_binary_expression(op, v_m[self.arg1], arg2)\n"
+            % ("arg2.get_int_value() " + cond if not cond.startswith("-") else cond)).body[0]
+        f.body = new.body
+        return True
+    return t
 
 
 def benign():
@@ -1278,6 +1380,9 @@ def benign():
                 return True
         return False
     out.append(("an extra Op constant", OPC, b_new_op))
+    out.append(("Writer.visit_cond_expression moves a constant to the right with the mirrored operator", WRITER, _swap_conds(">=", "<=")))
+    out.append(("BinaryExpression.visit folds the sign of a negative constant unless it is the minimum value", INSTR,
+                _fold_sign("-0x80000000 < arg2.get_int_value() < 0")))
     return out
 
 
@@ -1332,6 +1437,6 @@ def thorough(ctx):
         raise AnalysisError("rule lost its teeth: surviving mutants: %s" % "; ".join(survivors))
     if noisy:
         raise AnalysisError("rule fires on behaviour-preserving edits: %s" % "; ".join(noisy))
-    if total < 18 or btotal < 4:
-        raise AnalysisError("only %d mutation operators and %d benign edits apply to this tree (need >= 18 / 4): "
+    if total < 20 or btotal < 6:
+        raise AnalysisError("only %d mutation operators and %d benign edits apply to this tree (need >= 20 / 6): "
                             "the mutation set no longer matches the code" % (total, btotal))
